@@ -27,6 +27,13 @@ struct CliLike {
     timeouts: TimeoutSettings,
 }
 
+/// The extra request settings as a command line gives them.
+#[derive(Parser, Debug)]
+struct ExtraCliLike {
+    #[command(flatten)]
+    extra: gamedig::protocols::types::ExtraRequestSettings,
+}
+
 fn dur_name(d: Option<Duration>) -> String {
     match d {
         None => "None".into(),
@@ -77,6 +84,7 @@ impl Prop for C18 {
     fn n_cases(&self, _tier: Tier) -> usize { cases().len() }
     fn case_label(&self, _tier: Tier, idx: usize) -> String { cases()[idx].0.clone() }
     fn rule(&self) -> String {
+        // (path 3c: the extra request settings' flags through clap - every accepted command line arrives unchanged)
         "full product (read, write, connect) in {None, 0, 1 ns, 1 ms, u64::MAX s}^3 x retries in {0, 1, 2, usize::MAX-1, \
          usize::MAX} = 625 configurations x construction path {TimeoutSettings::new, Default, serde_json deserialisation, clap \
          flags (a harness-side Parser flattening TimeoutSettings; second-granularity values only)}: a zero duration must be \
@@ -168,6 +176,39 @@ impl Prop for C18 {
                                     }
                                 }
                             }
+                        }
+                    }
+                }
+                // path 3c: the extra request settings through their flags: every accepted command line must arrive unchanged
+                {
+                    use gamedig::protocols::types::{ExtraRequestSettings as X, GatherToggle as G};
+                    let mut lines: Vec<(Vec<&str>, X)> = vec![(vec![], X::default())];
+                    for (text, v) in [("47", 47), ("0", 0), ("1", 1), ("765", 765), ("2147483647", i32::MAX)] {
+                        lines.push((vec!["--protocol-version", text], X::default().set_protocol_version(v)));
+                    }
+                    for h in ["mc.example.org", "x", "zürich.example"] {
+                        lines.push((vec!["--hostname", h], X::default().set_hostname(h.to_string())));
+                    }
+                    for (text, g) in [("skip", G::Skip), ("try", G::Try), ("enforce", G::Enforce)] {
+                        lines.push((vec!["--gather-players", text], X::default().set_gather_players(g)));
+                        lines.push((vec!["--gather-rules", text], X::default().set_gather_rules(g)));
+                    }
+                    for (text, b) in [("true", true), ("false", false)] {
+                        lines.push((vec!["--check-app-id", text], X::default().set_check_app_id(b)));
+                    }
+                    lines.push((vec!["--hostname", "h", "--protocol-version", "47", "--gather-players", "try", "--gather-rules", "skip", "--check-app-id", "false"], X::default().set_hostname("h".into()).set_protocol_version(47).set_gather_players(G::Try).set_gather_rules(G::Skip).set_check_app_id(false)));
+                    for (args, want) in lines {
+                        ctx.counters.evaluations += 1;
+                        ctx.counters.states += 1;
+                        let mut argv = vec!["prog"];
+                        argv.extend(args.iter().copied());
+                        let res = run_pure(|| ExtraCliLike::try_parse_from(argv.clone()));
+                        ctx.distinct_key(&("extra-clap", argv.join(" ")));
+                        match res {
+                            Ok(Ok(c)) if c.extra == want => {}
+                            Ok(Ok(c)) => ctx.violation("extra-settings-not-preserved:clap", &[], argv.join(" "), format!("{:?}", c.extra), format!("{want:?}"), vec![]),
+                            Ok(Err(e)) => ctx.violation("valid-extra-settings-rejected:clap", &[], argv.join(" "), clip(&e.to_string(), 200), "accepted", vec![]),
+                            Err((msg, loc)) => ctx.violation("construction-panics:clap-extra-settings", &[], argv.join(" "), format!("PANIC at {loc}: {}", clip(&msg, 200)), "Ok or Err", vec![]),
                         }
                     }
                 }
